@@ -536,7 +536,7 @@ fn rhofail(rng: &mut Rng, iters: u64) {
         if r.is_err() {
             fail("rhofail", format!("factor({n} = {} * {}, Algo::Rho): panic (rho finds nothing with its 9 polynomials and factor_impl falls through to unreachable!('impossible') instead of reporting failure)", pq[0], pq[1]));
         }
-        if tested > iters * 50 {
+        if tested > iters.min(4000) * 50 {
             break;
         }
     }
@@ -560,7 +560,7 @@ fn factorapi(rng: &mut Rng, iters: u64) {
         inputs.push((Uint::from(n), Algo::Pm1));
         inputs.push((Uint::from(n), Algo::Auto));
     }
-    for _ in 0..iters.min(300) {
+    for _ in 0..iters.min(3000) {
         // random products of 1..4 primes from the table, with repetitions
         let k = 1 + rng.next() % 4;
         let mut n = 1u128;
